@@ -61,6 +61,23 @@ def check_training_set(rec, model_name, model, data, w):
         bad = [(g, x) for g, x in zip(gs, ws) if not (abs(g[3] - x[3]) <= 5e-6 * (1 + abs(x[3])) or (np.isinf(g[3]) and g[3] == x[3]))]
         rec.check(not bad, "C04/%s/transform-differs" % model_name, lambda: "%s training value %r, documented transform gives %r" % (model_name, bad[0][0], bad[0][1]), w)
     rec.check(int(model.n_obs()) == len(want), "C04/%s/n_obs" % model_name, lambda: "n_obs()=%d for %d documented training rows" % (model.n_obs(), len(want)), w)
+    if model_name == "SparseDrugComboInteraction":
+        # the single-agent effects it predicts with: mean of the sample's observed single-agent values, 1 for control
+        obs, tids, sids = np.asarray(data.observations, dtype=float), np.asarray(data.treatment_ids), np.asarray(data.sample_ids)
+        ref = {}
+        acc = {}
+        for i in range(len(obs)):
+            nc = [int(t) for t in tids[i] if t != -1]
+            if len(nc) == 1:
+                acc.setdefault((int(sids[i]), nc[0]), []).append(obs[i])
+        for c in sorted(set(int(x) for x in sids)):
+            if (tids == -1).any():
+                ref[(c, -1)] = 1.0
+        for k_, v_ in acc.items():
+            ref[k_] = float(np.mean(v_))
+        got_l = {(int(k_[0]), int(k_[1])): float(v_) for k_, v_ in model.single_effect_lookup.items()}
+        ok = set(ref) <= set(got_l) and all(abs(got_l[k_] - ref[k_]) <= 1e-12 * (1 + abs(ref[k_])) for k_ in ref)
+        rec.check(ok, "C04/SparseDrugComboInteraction/single-effect-table-differs", lambda: "single-agent effect table %r, the observed single-agent experiments give %r" % (dict(list(got_l.items())[:5]), dict(list(ref.items())[:5])), w)
 
 
 def gen_pair_screen(rng, for_interaction):
@@ -81,6 +98,7 @@ def gen_pair_screen(rng, for_interaction):
                 t[pos] = c
                 rows.append((s, t, plates[int(rng.integers(n_obs_pl))]))
     n_extra = int(rng.integers(6, 30))
+    singles_only_observed = bool(for_interaction and rng.random() < 0.15)
     for _ in range(n_extra):
         s = samples[int(rng.integers(ns))]
         a, b = int(rng.integers(len(conds))), int(rng.integers(len(conds)))
@@ -94,7 +112,12 @@ def gen_pair_screen(rng, for_interaction):
             t[int(rng.integers(2))] = ("", 0.0)
         elif u < 0.2:
             t = [("", 0.0), ("", 0.0)]
-        rows.append((s, t, plates[int(rng.integers(n_pl))]))
+        is_combo = t[0][0] != "" and t[1][0] != ""
+        if singles_only_observed and is_combo:
+            # the first round of a screen: only the single-agent plate(s) have been run so far
+            rows.append((s, t, plates[n_obs_pl + int(rng.integers(n_pl - n_obs_pl))]))
+        else:
+            rows.append((s, t, plates[int(rng.integers(n_pl))]))
     # every plate needs a row
     for p in plates:
         if not any(r[2] == p for r in rows):
